@@ -52,6 +52,9 @@ class Tok:
     def run(self, c):
         return Tok("run", self, c)
 
+    def __call__(self, *args, **kw):
+        return Tok("call", self, *args, **kw)
+
     def __getattr__(self, name):
         if name.startswith("__"):
             raise AttributeError(name)
@@ -104,6 +107,8 @@ def glue_tasks():
         def run(fn, args, modular):
             del log[:]
             it = I.Interp(modular=modular)
+            # any other repository function reached from the glue is an unexpected callee: it becomes an uninterpreted term, so the result term differs
+            it.auto_stub = lambda f, a, k: Tok("unexpected_callee:" + f.__name__, *a, **k)
             saved = sc.single_qubit_gate_canceller
             sc.single_qubit_gate_canceller = canceller
             try:
